@@ -32,6 +32,23 @@ SPECIAL32 = [0, 1 << 31, 1, (1 << 31) | 1, 0x007FFFFF, 0x00800000, 0x3F800000, 0
              0x7F800000, 0xFF800000, 0x7FC00000, 0x7F800001, 0xFFC00000, 0x3F000000, 0x40400000, 0x4B000000, 0x33800000, 0x34000000]
 
 
+def raw_float_literals():
+    """the float literals of the current non-test source, as values"""
+    import re, os
+    from . import harvest
+    vals = set()
+    for root, _, files in os.walk(os.path.join(C.REPO, "src")):
+        for f in files:
+            if f.endswith(".rs") and f != "ziggurat_tables.rs":
+                src = harvest.strip_comments(open(os.path.join(root, f), errors="replace").read())
+                for m in re.finditer(r"(?<![\w.])([0-9][0-9_]*\.[0-9][0-9_]*(?:[eE][+-]?[0-9]+)?|[0-9][0-9_]*[eE][+-]?[0-9]+|[0-9][0-9_]*\.(?![\w.]))(?:_?f(?:32|64))?", src):
+                    try:
+                        vals.add(float(m.group(1).replace("_", "")))
+                    except ValueError:
+                        pass
+    return sorted(vals)
+
+
 def harvested_floats(w):
     """float literals of the current source (and their negatives, neighbours) as bit patterns of width w"""
     import struct, re, os
